@@ -85,3 +85,12 @@ Theorem C01_model_sound_for_all_histories : forall terms ops hs s i j a b ti tj,
   eg_eq s a b = Ok true -> Deriv (asserted terms ops) 0 ti tj.
 Proof. exact equality_sound_all_static. Qed.
 Print Assumptions C01_model_sound_for_all_histories.
+
+(* with completeness (EGraph/Complete.v, C02_completeness): the model's equality on handles DECIDES the specified congruence *)
+From SE Require Import EGraph.Complete.
+Theorem C01_model_equality_is_exactly_the_congruence : forall terms ops hs s i j a b ti tj, List.Forall term_static_user terms ->
+  run_ops terms ops [] empty_egraph = Ok (hs, s) -> nth_opt hs i = Some a -> nth_opt hs j = Some b ->
+  nth_opt (handle_cterms terms ops) i = Some ti -> nth_opt (handle_cterms terms ops) j = Some tj ->
+  (eg_eq s a b = Ok true <-> Deriv (asserted terms ops) 0 ti tj).
+Proof. exact eq_iff_deriv. Qed.
+Print Assumptions C01_model_equality_is_exactly_the_congruence.
